@@ -37,6 +37,7 @@ NAMEFORMS = [(None, "q1"), ("s", "q1"), (None, '"Q1"'), ('"S"', '"Q1"'), ("s", '
 TAB_BEFORE = "CREATE TABLE tb (increment int, start int, cache int DEFAULT 3);"
 TAB_AFTER = "CREATE TABLE ta (cache int, minvalue int, maxvalue int, no int, noorder int);"
 SEQ2 = "CREATE SEQUENCE s.q2 START 7;"
+MODES = ["redshift", "spark_sql", "mysql", "bigquery", "mssql", "databricks", "sqlite", "vertics", "ibm_db2", "postgres", "oracle", "hql", "snowflake", "athena"]
 # statements that do not begin with CREATE, placed right after the sequence: sequence keyword mode must be over by then
 ALTER_AFTER = "ALTER TABLE tb ADD CONSTRAINT u1 UNIQUE (start);\nALTER TABLE tb ADD CONSTRAINT c1 CHECK (cache > 0);"
 CASEF = {"upper": str.upper, "lower": str.lower, "mixed": lambda s: "".join(c.lower() if i % 2 else c.upper() for i, c in enumerate(s))}
@@ -65,6 +66,9 @@ def gen_cases(tier):
             for v in range(1, len(VALS)):
                 cases.append({"sel": s, "voff": v, "kcase": "upper", "ctx": "alone"})
         if len(s) <= 2:
+            # a sequence entry is the same in every output mode (BigQuery calls the schema "dataset")
+            for m in MODES:
+                cases.append({"sel": s, "voff": 2, "kcase": "upper", "ctx": "alone", "mode": m})
             cases.append({"sel": s, "voff": 4, "kcase": "upper", "ctx": "then-alter"})
             cases.append({"sel": s, "voff": 3, "kcase": "upper", "ctx": "between"})
             cases.append({"sel": s, "voff": 5, "kcase": "mixed", "ctx": "noschema"})
@@ -110,14 +114,16 @@ def build(case):
 
 def evaluate(case):
     ddl, exp = build(case)
-    r = run_ddl(ddl, {"normalize_names": True} if case.get("nn") else None)
+    r = run_ddl(ddl, {"normalize_names": True} if case.get("nn") else None, {"output_mode": case["mode"]} if case.get("mode") else None)
+    if case.get("mode") == "bigquery":
+        exp = {("dataset" if k == "schema" else k): v for k, v in exp.items()}
     diffs = []
     if r[0] != "ok":
         diffs.append(diff("run", "raises", "result", r[1:3]))
     else:
         res = r[1]
         if case["ctx"] in ("alone", "noschema"):
-            if res != [exp]:
+            if res != [exp] and not (case.get("mode") and len(res) == 1 and isinstance(res[0], dict) and dict(res[0]) == exp):
                 diffs.append(diff("sequence entity", "sequence-differs", exp, short(res)))
         elif case["ctx"] == "then-alter":
             ref = run_ddl(TAB_BEFORE + "\n" + ALTER_AFTER)[1]
